@@ -105,7 +105,8 @@ def server_request_variants(rng, n):
 
 CALLBACKS = ['none', 'add:' + hdrs_field([(b'x-added', b'1'), (b'sec-websocket-protocol', b'chat')]),
              'rej:403:' + hx(b'Forbidden by callback') + ':' + hdrs_field([(b'x-why', b'no')]),
-             'rej:404:none:-', 'rej:200:' + hx(b'ok?') + ':-', 'rej:500:' + hx(b'e' * 300) + ':-']
+             'rej:404:none:-', 'rej:200:' + hx(b'ok?') + ':-', 'rej:500:' + hx(b'e' * 300) + ':-',
+             'rej:301:' + hx(b'moved') + ':' + hdrs_field([(b'location', b'http://elsewhere/')]), 'rej:302:none:-', 'rej:100:none:-', 'rej:304:none:-', 'rej:204:none:-']
 
 WPATS = [[], ['a:1'] * 5, ['e:wb', 'a:7', 'e:wb'], ['a:2', 'e:wb', 'e:wb', 'a:50'], ['e:intr'], ['e:other'], ['a:0'], ['e:wb', 'a:0']]
 FPATS = [[], ['e:wb'], ['e:wb', 'e:wb', 'ok'], ['e:other'], ['e:intr']]
@@ -114,7 +115,8 @@ FPATS = [[], ['e:wb'], ['e:wb', 'e:wb', 'ok'], ['e:other'], ['e:intr']]
 URIS = [b'ws://example.com/', b'ws://example.com:8080/chat?x=1&y=2', b'ws://user@example.com/a', b'ws://user:pw@example.com:9/x',
         b'ws://user:p@ss@example.com:9/x', b'ws://a@b@c@host.example/', b'ws://[::1]:9001/ws', b'ws://127.0.0.1/', b'wss://example.com/secure',
         b'ws://EXAMPLE.com/CasePath', b'ws://example.com', b'ws://@example.com/', b'ws://user@/x', b'http://example.com/',
-        b'ws://example.com/very/long/' + b'p' * 300, b'/relative/only', b'ws://x.y:1/?q']
+        b'ws://example.com/very/long/' + b'p' * 300, b'/relative/only', b'ws://x.y:1/?q',
+        b'ws://example.com:80/', b'ws://example.com:443/', b'wss://example.com:443/a', b'wss://example.com:80/a', b'ws://example.com:0/', b'ws://example.com:65535/']
 
 ACCEPT_MARK = b'ACCEPT99x' + b'=' * 19
 
@@ -128,20 +130,23 @@ def server_response_variants(rng, n, subprotos=()):
     out = [(list(base), b'101 Switching Protocols', b'HTTP/1.1')]
     for k in range(len(base)):
         out.append(([h for i, h in enumerate(base) if i != k], b'101 Switching Protocols', b'HTTP/1.1'))
-    for st in (b'200 OK', b'400 Bad Request', b'101 Whatever', b'301 Moved', b'099 X', b'1010 Y'):
+    for st in (b'200 OK', b'400 Bad Request', b'101 Whatever', b'301 Moved', b'099 X', b'1010 Y', b'100 Continue', b'102 Processing', b'103 Early Hints', b'199 X', b'201 Created'):
         out.append((list(base), st, b'HTTP/1.1'))
     out.append((list(base), b'101 Switching Protocols', b'HTTP/1.0'))
     for v in (b'WebSocket', b'websocket2', b'', b'web socket'):
         out.append(([(n_, v if n_ == b'Upgrade' else v_) for n_, v_ in base], b'101 Switching Protocols', b'HTTP/1.1'))
     for v in (b'upgrade', b'UPGRADE', b'keep-alive, Upgrade', b'close', b''):
         out.append(([(n_, v if n_ == b'Connection' else v_) for n_, v_ in base], b'101 Switching Protocols', b'HTTP/1.1'))
-    for sp in (b'chat', b'other', b' chat', b'CHAT', b'superchat', b''):
+    for sp in (b'chat', b'other', b' chat', b'CHAT', b'superchat', b'', b'evil, chat', b'chat, evil', b'chat,chat', b'chat;q=1'):
         out.append((list(base[:3]) + [(b'Sec-WebSocket-Protocol', sp)], b'101 Switching Protocols', b'HTTP/1.1'))
     # every single-character change of the accept value (28 positions x 4 letters)
     for pos in range(28):
         for ch in (b'A', b'z', b'0', b'/', b'^'):
             out.append(([(n_, accept_marker(pos, ch) if n_ == b'Sec-WebSocket-Accept' else v_) for n_, v_ in base],
                         b'101 Switching Protocols', b'HTTP/1.1'))
+    # length-changing changes of the accept value (append, truncate, empty, doubled, trailing space, leading char)
+    for code in (90, 91, 92, 93, 94, 95):
+        out.append(([(n_, accept_marker(code, b'x') if n_ == b'Sec-WebSocket-Accept' else v_) for n_, v_ in base], b'101 Switching Protocols', b'HTTP/1.1'))
     for _ in range(n):
         hs = [(randcase(rng, n_), randcase(rng, v_) if n_ in (b'Upgrade', b'Connection') else v_) for n_, v_ in base]
         rng.shuffle(hs)
@@ -176,3 +181,32 @@ def endless_heads():
     out.append(('drip1b', [bytes([b]) for b in big[:200]]))
     out.append(('drip100', [big[i:i + 100] for i in range(0, 100 * 90, 100)]))
     return out
+
+
+def mutate_head(rng, head):
+    """one byte of a header VALUE or NAME replaced by an obs-text / control / separator byte"""
+    lines = head.split(b'\r\n')
+    idx = rng.randrange(1, max(2, len(lines) - 2))
+    l = bytearray(lines[idx])
+    if l:
+        pos = rng.randrange(len(l))
+        l[pos] = rng.choice([0x80, 0xff, 0xe9, 0x00, 0x09, 0x7f, 0x0b, 0x3a, 0x20, 0x0d, 0x0a, 0xc3])
+    lines[idx] = bytes(l)
+    return b'\r\n'.join(lines)
+
+def big_valid_request(total):
+    """a valid upgrade request padded with cookie-like headers to exactly `total` bytes"""
+    base = request_bytes(REQUIRED)
+    pad = total - len(base)
+    if pad < 12:
+        return base
+    hs = []
+    i = 0
+    while pad > 0:
+        name = b'X-C%d' % i
+        room = min(pad, 700)
+        vlen = room - len(name) - 4
+        if vlen < 1:
+            break
+        hs.append((name, b'c' * vlen)); pad -= len(name) + 4 + vlen; i += 1
+    return request_bytes(hs + REQUIRED)
